@@ -18,6 +18,7 @@ pub mod wallet {
 pub mod c17;
 pub mod cachefile;
 pub mod common;
+pub mod exhaustive;
 pub mod fuzzrun;
 pub mod hexaddr;
 pub mod maddr;
